@@ -355,6 +355,7 @@ class WaitForDependencies(_L2):
     the time needed for sim's next step t (progress + input delay > t), every async-request
     partner and -- with lazy stepping -- every direct consumer has reached t"""
     target = "mosaik.scheduler.wait_for_dependencies"
+    property_ids = _L2.property_ids + ["C04"]   # lazy_stepping is symbolic: the same readiness either way
 
     def make_args(self, mk):
         M = mk.s.sched
